@@ -196,9 +196,6 @@ def specRead (res : Res) (m0 : Content) : Query → Except Err View
 def specHistory (res : Res) (m0 : Content) : List Event → List (Except Err View)
   | [] => []
   | .read q :: rest => specRead res m0 q :: specHistory res m0 rest
-  | .setPars p :: rest =>
-    (match withPars m0 p with
-     | .error e => .error e
-     | .ok _ => .ok (.dict [])) :: specHistory res m0 rest
+  | .setPars _ :: rest => .ok (.dict []) :: specHistory res m0 rest
 
 end Mxl.C10
